@@ -73,6 +73,8 @@ def run_impl(case):
 
 
 def judge_dis(out, impl):
+    if out != impl and out and len(out[0]) == 3:
+        return [f"squash labels differ: model {out} impl {impl}"]
     if out != impl:
         k = next((j for j, (a, b) in enumerate(zip(out, impl)) if a != b), min(len(out), len(impl)))
         return [f"gene map differs at item {k}: model {out[k:k + 2]} impl {impl[k:k + 2]}"]
@@ -89,3 +91,64 @@ def shrink(case):
         c = {"op": case["op"], "tag": "shrunk", "in": dict(case["in"])}
         c["in"]["genes"] = genes[:k] + genes[k + 1:]
         yield c
+
+
+# ---------------------------------------------------------------------------------------------
+# op `squash_cols`: which value of a squashed row lands under which column name, for any order of the optional columns
+
+SQ_VALUES = {"depth": (100.0, 200.0), "gc": (0.25, 0.75), "rmask": (0.1, 0.3), "spread": (1.0, 3.0), "weight": (0.5, 0.7),
+             "probes": (3, 5), "baf": (0.4, 0.42)}
+SQ_KNOWN = ["depth", "gc", "rmask", "spread", "weight", "probes"]
+
+
+def sq_corpus():
+    mk = lambda rest, tag: {"op": "squash_cols", "tag": tag, "in": {"rest": rest}}
+    return [mk(["depth", "weight"], "corpus-squash-cols-plain"), mk(["weight", "depth"], "corpus-squash-cols-swapped"),
+            mk(["depth", "probes", "weight"], "corpus-squash-cols-reader-order"), mk([], "corpus-squash-cols-none")]
+
+
+def sq_gen(rng, tier):
+    cases = []
+    for _ in range({"quick": 60, "thorough": 400, "search": 60}[tier]):
+        rest = rng.sample(SQ_KNOWN, rng.randint(0, 6))
+        r = rng.random()
+        if r < 0.35:
+            rest = [x for x in SQ_KNOWN if x in rest]  # the order the code appends
+        cases.append({"op": "squash_cols", "tag": "squash_cols-random", "in": {"rest": rest}})
+    return cases
+
+
+def sq_run(case):
+    import numpy as np
+    import pandas as pd
+
+    from cnvlib.cnary import CopyNumArray as CNA
+
+    rest = case["in"]["rest"]
+    data = {"chromosome": ["chr1"] * 3, "start": [0, 10, 30], "end": [10, 20, 40], "gene": ["A", "A", "-"],
+            "log2": [1.0, 2.0, -3.0]}
+    for x in rest:
+        a, b = SQ_VALUES[x]
+        data[x] = [a, b, a]
+    arr = CNA(pd.DataFrame(data), {"sample_id": "S"})
+    out = arr.squash_genes(summary_func=np.mean).data
+    if list(out.columns) != list(data) or len(out) != 2:
+        raise AssertionError(f"squash_genes: columns {list(out.columns)}, {len(out)} rows")
+    known = {"chr1": ("chromosome", "unique"), "A": ("gene", "name")}
+    nums = [(0.0, ("start", "first")), (20.0, ("end", "last")), (1.5, ("log2", "summary"))]
+    for x in rest:
+        a, b = SQ_VALUES[x]
+        nums.append(((a + b) / 2, (x, "summary")))
+        nums.append((float(a + b), (x, "total")))
+    labels = []
+    for c in out.columns:
+        v = out[c].iat[0]
+        if isinstance(v, str):
+            d = known.get(v)
+        else:
+            hits = [dd for val, dd in nums if abs(float(v) - val) < 1e-9]
+            d = hits[0] if len(hits) == 1 else None
+        if d is None:
+            raise AssertionError(f"squash_genes: value {v!r} under {c!r} is none of the group's summaries")
+        labels.append([str(c), d[0], d[1]])
+    return labels
